@@ -177,6 +177,8 @@ impl Context {
             final(h).wf() && fwd(*old(h), *final(h)) && final(h).cur == old(h).cur && ret is Ok,
             //# H4-non-error-event-keeps-existing-tasks
             !(old(h).st(task.id@) is Error) ==> forall|x: Tid| #[trigger] old(h).has(x) ==> final(h).tasks[x] == old(h).tasks[x],
+            //# H4-the-event-of-the-task-is-raised-with-the-state-it-has [C06,C16]
+            final(h).task_events.len() > old(h).task_events.len() && final(h).task_events[old(h).task_events.len() as int] == (task.id@, old(h).st(task.id@)),
 //@@ end
 //@@ extract file=acts/src/scheduler/context.rs in="impl Context" item="fn emit_error" name=Context::emit_error props=C02,C06
 //@@ opt attr="#[verifier::exec_allows_no_decreases_clause]"
@@ -187,6 +189,9 @@ impl Context {
             final(h).wf() && fwd(*old(h), *final(h)),
             //# E2-nothing-happens-unless-the-current-task-is-in-error
             !(old(h).st(old(h).cur) is Error) ==> *final(h) == *old(h) && ret is Ok,
+            //# E3-a-failed-task-always-raises-its-event-whatever-its-kind-the-catch-rules-are-consulted-from-that-event [C06]
+            old(h).st(old(h).cur) is Error ==> final(h).task_events.len() > old(h).task_events.len()
+                && final(h).task_events[old(h).task_events.len() as int] == (old(h).cur, old(h).st(old(h).cur)),
 //@@ end
 //@@ extract file=acts/src/scheduler/context.rs in="impl Context" item="fn dispatch_acts" name=Context::dispatch_acts props=C16
 //@@ opt rewrites=R1,R2,R3,R5,R13,R22 noheap=push
